@@ -195,12 +195,10 @@ static inline int post_verif_tp2_copy_write(unsigned long a, int b, unsigned lon
  * The objects live inside the scenario wrappers (constructed, operated on, read back, destroyed); the wrapper parameters are the
  * sizes / the probed position i / the written values.  i is arbitrary, so a postcondition about position i is one about every
  * position.  The ghost g is bound to i (loop invariants inside the vector code talk about g), vg to the value stored there.
- * Sizes are bounded by VEC_MAX elements (8*VEC_MAX bytes must not wrap; std::vector::max_size() plays the same role). */
+ * Sizes are bounded by VEC_MAX = 2^20 elements (sizeof(T)*n must not wrap; std::vector::max_size() plays the same role); the bound is a
+ * precondition only -- no loop is unwound, the proofs also go through for 2^32 (tried), 2^20 keeps native replays cheap. */
 #ifndef VEC_MAX
-#define VEC_MAX 65536UL
-#endif
-#ifndef VEC_SMALL
-#define VEC_SMALL VEC_MAX
+#define VEC_MAX 1048576UL
 #endif
 GHOST(unsigned long, vg)
 static inline int pre_verif_vec_sized(unsigned long n, unsigned long i, unsigned long x) { return n <= VEC_MAX && GHOST_DEF(g, i) && GHOST_DEF(vg, x); }
@@ -209,16 +207,16 @@ static inline int pre_verif_vec_sized_init(unsigned long n, unsigned long i) { r
 static inline int post_verif_vec_sized_init(unsigned long n, unsigned long i, unsigned long ret) { return ret == 0UL; }
 static inline int pre_verif_vec_push5(unsigned long x, unsigned long i) { return GHOST_DEF(g, i) && GHOST_DEF(vg, x + i); }
 static inline int post_verif_vec_push5(unsigned long x, unsigned long i, vecp_t ret) { return ret.size == 5UL && IMPLIES(i < 5UL, ret.at_i == x + i); }
-static inline int pre_verif_vec_resize(unsigned long n, unsigned long m, unsigned long i, unsigned long x) { return n >= 1UL && n <= VEC_SMALL && m <= VEC_SMALL && GHOST_DEF(g, i) && GHOST_DEF(vg, x); }
+static inline int pre_verif_vec_resize(unsigned long n, unsigned long m, unsigned long i, unsigned long x) { return n >= 1UL && n <= VEC_MAX && m <= VEC_MAX && GHOST_DEF(g, i) && GHOST_DEF(vg, x); }
 static inline int post_verif_vec_resize(unsigned long n, unsigned long m, unsigned long i, unsigned long x, vecp_t ret) { return ret.size == m && ret.at_i == x; }
-static inline int pre_verif_vec_resize_fill(unsigned long n, unsigned long m, unsigned long i) { return n >= 1UL && n <= VEC_SMALL && m <= VEC_SMALL && GHOST_DEF(g, i); }
+static inline int pre_verif_vec_resize_fill(unsigned long n, unsigned long m, unsigned long i) { return n >= 1UL && n <= VEC_MAX && m <= VEC_MAX && GHOST_DEF(g, i); }
 static inline int post_verif_vec_resize_fill(unsigned long n, unsigned long m, unsigned long i, unsigned long ret) { return ret == 0UL; }
 static inline int post_verif_vec_shrink_grow(unsigned long x, unsigned long ret) { return ret == 0UL; }
-static inline int pre_verif_vec_resize_push(unsigned long n, unsigned long m, unsigned long x, unsigned long y, unsigned long i) { return n >= 1UL && n <= VEC_SMALL && m < VEC_SMALL && GHOST_DEF(g, i) && GHOST_DEF(vg, x); }
+static inline int pre_verif_vec_resize_push(unsigned long n, unsigned long m, unsigned long x, unsigned long y, unsigned long i) { return n >= 1UL && n <= VEC_MAX && m < VEC_MAX && GHOST_DEF(g, i) && GHOST_DEF(vg, x); }
 static inline int post_verif_vec_resize_push(unsigned long n, unsigned long m, unsigned long x, unsigned long y, unsigned long i, vecp_t ret) { return ret.size == m + 1UL && ret.at_i == x && ret.size2 == y; }
 static inline int pre_verif_vec_copy(unsigned long n, unsigned long i, unsigned long x, unsigned long y) { return n >= 1UL && n <= VEC_MAX && GHOST_DEF(g, i) && GHOST_DEF(vg, x); }
 static inline int post_verif_vec_copy(unsigned long n, unsigned long i, unsigned long x, unsigned long y, vecp_t ret) { return ret.size == n && ret.at_i == x && ret.size2 == n && ret.at2_i == y; }
-static inline int pre_verif_vec_assign(unsigned long n, unsigned long m, unsigned long i, unsigned long x, unsigned long y) { return n >= 1UL && n <= VEC_SMALL && m >= 1UL && m <= VEC_SMALL && GHOST_DEF(g, i) && GHOST_DEF(vg, x); }
+static inline int pre_verif_vec_assign(unsigned long n, unsigned long m, unsigned long i, unsigned long x, unsigned long y) { return n >= 1UL && n <= VEC_MAX && m >= 1UL && m <= VEC_MAX && GHOST_DEF(g, i) && GHOST_DEF(vg, x); }
 static inline int post_verif_vec_assign(unsigned long n, unsigned long m, unsigned long i, unsigned long x, unsigned long y, vecp_t ret) { return ret.size == n && ret.at_i == x && ret.size2 == n && ret.at2_i == y; }
 static inline int pre_verif_vec_self_assign(unsigned long n, unsigned long i, unsigned long x) { return n >= 1UL && n <= VEC_MAX && GHOST_DEF(g, i) && GHOST_DEF(vg, x); }
 static inline int post_verif_vec_self_assign(unsigned long n, unsigned long i, unsigned long x, vecp_t ret) { return ret.size == n && ret.at_i == x; }
@@ -239,3 +237,5 @@ static inline int post_verif_vec_self_assign(unsigned long n, unsigned long i, u
 #endif
 static inline int post_verif_vec_zero_push(unsigned long x, vecp_t ret) { return ret.size == 1UL && ret.at_i == x; }
 static inline int post_verif_vec_variadic(unsigned long a, unsigned long b, unsigned long c3, vecp_t ret) { return ret.size == 3UL && ret.at_i == a && ret.size2 == b && ret.at2_i == c3; }
+static inline int pre_verif_vec_push_alias(unsigned long k, unsigned long x) { return k >= 1UL && k <= 6UL; }
+static inline int post_verif_vec_push_alias(unsigned long k, unsigned long x, vecp_t ret) { return ret.size == k + 1UL && ret.at_i == x && ret.size2 == x; }
